@@ -407,7 +407,8 @@ def iterjoin(left, right, lkey, rkey, leftouter=False, rightouter=False,
 
     # loop until *either* of the iterators is exhausted
     # initialise here to handle empty tables
-    lkval, rkval = Comparable(None), Comparable(None)
+    nokey = Comparable(None)
+    lkval, rkval = nokey, nokey
     try:
 
         # pick off initial row groups
@@ -439,7 +440,7 @@ def iterjoin(left, right, lkey, rkey, leftouter=False, rightouter=False,
 
     # make sure any left rows remaining are yielded
     if leftouter:
-        if lkval > rkval:
+        if lkval is not nokey and (rkval is nokey or lkval > rkval):
             # yield anything that got left hanging
             for row in joinrows(lrowgrp, None):
                 yield tuple(row)
@@ -450,7 +451,7 @@ def iterjoin(left, right, lkey, rkey, leftouter=False, rightouter=False,
 
     # make sure any right rows remaining are yielded
     if rightouter:
-        if lkval < rkval:
+        if rkval is not nokey and (lkval is nokey or lkval < rkval):
             # yield anything that got left hanging
             for row in joinrows(None, rrowgrp):
                 yield tuple(row)
@@ -622,7 +623,8 @@ def iterantijoin(left, right, lkey, rkey):
     lrowgrp = []
 
     # loop until *either* of the iterators is exhausted
-    lkval, rkval = Comparable(None), Comparable(None)
+    nokey = Comparable(None)
+    lkval, rkval = nokey, nokey
     try:
 
         # pick off initial row groups
@@ -647,7 +649,7 @@ def iterantijoin(left, right, lkey, rkey):
         pass
 
     # any left over?
-    if lkval > rkval:
+    if lkval is not nokey and (rkval is nokey or lkval > rkval):
         # yield anything that got left hanging
         for row in lrowgrp:
             yield tuple(row)
@@ -787,7 +789,8 @@ def iterlookupjoin(left, right, lkey, rkey, missing=None, lprefix=None,
 
     # loop until *either* of the iterators is exhausted
     # initialise here to handle empty tables
-    lkval, rkval = Comparable(None), Comparable(None)
+    nokey = Comparable(None)
+    lkval, rkval = nokey, nokey
     try:
 
         # pick off initial row groups
@@ -814,7 +817,7 @@ def iterlookupjoin(left, right, lkey, rkey, missing=None, lprefix=None,
         pass
 
     # make sure any left rows remaining are yielded
-    if lkval > rkval:
+    if lkval is not nokey and (rkval is nokey or lkval > rkval):
         # yield anything that got left hanging
         for row in joinrows(lrowgrp, None):
             yield tuple(row)
